@@ -1,17 +1,17 @@
-\* C18 thorough (replay 3; sampled-trace filter on): 2 threads, <= 2 spans, <= 3 frames, nesting <= 2, headers sampled / unsampled other trace / invalid (no ids), Frame::current hand-off; every transition replayed.
+\* C18 thorough (model checking only, 3; sampled-trace filter on): 2 threads, <= 2 spans, <= 3 frames, 1 task, nesting <= 3, headers sampled/unsampled (same trace), other trace, invalid (span id only), all forms.
 SPECIFICATION Spec
 CONSTANTS
     NThreads = 2
     MaxSpans = 2
     MaxFrames = 3
-    MaxTasks = 0
-    MaxDepth = 2
-    Headers <- MC_Headers3
+    MaxTasks = 1
+    MaxDepth = 3
+    Headers <- MC_Headers4
     InSampled = TRUE
     SnapshotOnPush = TRUE
-    WithLazy = FALSE
+    WithLazy = TRUE
     WithCurrent = TRUE
-    Emit = TRUE
+    Emit = FALSE
 VIEW tview
 INVARIANTS SamplerOncePerTrace DecisionGoverns UnsampledSilent SampledConsistent NoTraceNoParent FrameCarries
 PROPERTIES Restored
